@@ -185,3 +185,65 @@ func fillGood(data []byte, count int) ([]uint16, error) {
 	}
 	return out, nil
 }
+
+// a helper whose accesses rest on a symbolic precondition established by its (only) callers
+
+func rowOK(src []byte, n int) []uint16 {
+	out := make([]uint16, n)
+	for j := 0; j < n; j++ {
+		out[j] = binary.BigEndian.Uint16(src[2*j:])
+	}
+	return out
+}
+
+func rowsGood(src []byte, n int) ([]uint16, error) {
+	if n < 0 || len(src) < 4+2*n {
+		return nil, errors.New("EOF")
+	}
+	return rowOK(src[4:], n), nil
+}
+
+func rowKO(src []byte, n int) []uint16 {
+	out := make([]uint16, n)
+	for j := 0; j < n; j++ {
+		out[j] = binary.BigEndian.Uint16(src[2*j:])
+	}
+	return out
+}
+
+// the caller tests one byte per value
+func rowsBad(src []byte, n int) ([]uint16, error) {
+	if n < 0 || len(src) < 4+n {
+		return nil, errors.New("EOF")
+	}
+	return rowKO(src[4:], n), nil
+}
+
+// a second load of the same location with nothing written in between is the same quantity
+type recd struct{ off uint16 }
+
+func reloadGood(src []byte, recs []recd) uint16 {
+	var s uint16
+	for i := range recs {
+		r := &recs[i]
+		if len(src) < int(r.off)+2 {
+			continue
+		}
+		s += binary.BigEndian.Uint16(src[r.off:])
+	}
+	return s
+}
+
+// ... but not when the location is written in between
+func reloadBad(src []byte, recs []recd) uint16 {
+	var s uint16
+	for i := range recs {
+		r := &recs[i]
+		if len(src) < int(r.off)+2 {
+			continue
+		}
+		r.off *= 2
+		s += binary.BigEndian.Uint16(src[r.off:])
+	}
+	return s
+}
